@@ -8,7 +8,8 @@ def rx(sig): return '^' + re.escape(sig) + '$'
 TYPES = {'TP': 'cocls::thread_pool', 'QI': 'cocls::function<void (), 64UL>', 'FB': 'cocls::function_base<64UL, false, void>',
          'TQ': TQT.replace('64ul', '64UL'), 'TVEC': TVT, 'THR': 'std::thread', 'TVIT': '__gnu_cxx::__normal_iterator<std::thread *, %s >' % TVT, 'ULK': 'std::unique_lock<std::mutex>', 'CONDV': 'std::condition_variable'}
 GLOBALS = {'TP_CURRENT': '_ZN5cocls11thread_pool8_currentE'}
-# ---- layer A (pool level): containers, std::thread and the function<> cell are assumed-contract primitives (lib/model_tpool.c)
+# ---- layer A (pool level): containers, std::thread and the function<> cell are assumed-contract primitives (lib/model_tpool2.c; model_tpool.c is its
+#      predecessor without the join-order / workers-taken-by-another-stop / thread-identity obligations, kept for reference)
 ABS = {   # alias -> regex : abstract callees of the pool-level units
     'qi_move': rx('%s::function(%s&&)' % (QIT, QIT)), 'qi_dtor': rx('%s::~function()' % QIT), 'qi_call': rx('void cocls::function_base<64ul, false, void>::operator()<>() const'),
     'tq_ctor': r'^std::queue<cocls::function<void \(\), 64ul>.*::queue<std::deque<', 'tq_dtor': r'^std::queue<cocls::function<void \(\), 64ul>.*::~queue\(\)$',
@@ -21,7 +22,7 @@ ABS = {   # alias -> regex : abstract callees of the pool-level units
     'tv_it_deref': r'^__gnu_cxx::__normal_iterator<std::thread\*, .*>::operator\*\(\) const$',
 }
 BOUNDARY_A = [ABS['qi_move'], ABS['qi_dtor'], ABS['qi_call'], r'^std::queue<cocls::function<void \(\), 64ul>', r'^std::vector<std::thread', ABS['tv_swap'], ABS['thr_get_id'], ABS['tv_it_deref'], r'^std::condition_variable::(wait\(|notify|condition_variable|~condition)']
-LIBS_A = ['rt_core.c', 'rt_atomic_seq.c', 'model_mutex.c', 'model_tpool.c']
+LIBS_A = ['rt_core.c', 'rt_atomic_seq.c', 'model_mutex.c', 'model_tpool2.c']
 HOOKS = ['CV_ON_LOCK(m) { extern void tp_on_lock(void *); tp_on_lock((void *)(m)); }', 'CV_ON_UNLOCK(m) { extern void tp_on_unlock(void *); tp_on_unlock((void *)(m)); }']
 F = {   # functions under contract (pool level)
     'tp_enqueue': rx('cocls::thread_pool::enqueue(%s&&)' % QIT), 'tp_worker': rx('cocls::thread_pool::worker()'), 'tp_stop': rx('cocls::thread_pool::stop()'),
@@ -47,7 +48,8 @@ UNITS = [
     unitA('any_enqueued', 'tp_any_enqueued'),
     unitA('worker', 'tp_worker', names={'cv_wait_pred': F['cv_wait_pred']}, loop_contracts=True,
           replay=dict(src='c11_dtor_under_lock.cpp', mode='dtor_under_lock', flags=['-pthread', '-g'], timeout=60)),
-    unitA('dtor', 'tp_dtor', names_opt={'tp_stop_abs': F['tp_stop']}, boundary=[F['tp_stop']]),
+    unitA('dtor', 'tp_dtor', names_opt={'tp_stop_abs': F['tp_stop']}, boundary=[F['tp_stop']],
+          replay=dict(src='c11_stop_concurrent.cpp', mode='dtor', flags=['-pthread', '-g'], timeout=60)),
     unitA('is_current', 'tp_is_current'),
     unitA('cur_is_stopped', 'cur_is_stopped'),
     unitA('cur_any_enqueued', 'cur_any_enqueued'),
@@ -55,7 +57,13 @@ UNITS = [
     unitA('ctor', 'tp_ctor', names_opt={'thr_ctor': THR_CTOR, 'tv_push_back': rx(TVT + '::push_back(std::thread&&)'), 'thr_hw': rx('std::thread::hardware_concurrency()')},
           boundary=[THR_CTOR], ptypes={'LAMCTOR': THR_CTOR + '#1'}, loop_contracts=True, defines=['TP_IN_CTOR 1']),
     unitA('thread_body', 'thread_body', names_opt={'tp_worker_abs': F['tp_worker']}, boundary=[F['tp_worker']], ptypes={'LAMCTOR': F['thread_body'] + '#0'}),
-    unitA('stop', 'tp_stop', loop_contracts=True, defines=['TP_TRACK_THREADS 1', 'TP_MAXTHR (1ul << 20)', 'TP_ALLOC_THR (in_nthr + 1)']),
+    unitA('stop', 'tp_stop', loop_contracts=True, defines=['TP_TRACK_THREADS 1', 'TP_MAXTHR (1ul << 20)', 'TP_ALLOC_THR (in_nthr + 1)'],
+          replay=dict(src='c11_join_before_cancel.cpp', mode='join_order', flags=['-pthread', '-g'], timeout=60)),
+    # the same function once more with the clause "EVERY stop() returns only when no worker is left running" (open finding C11-OPEN2-...: a stop() that
+    # loses the race against another thread's stop() finds an empty list and returns at once); the join-order obligation is decided in unit `stop`
+    unitA('stop_concurrent', 'tp_stop', loop_contracts=True, harness='h_stop',
+          defines=['TP_TRACK_THREADS 1', 'TP_MAXTHR (1ul << 20)', 'TP_ALLOC_THR (in_nthr + 1)', 'C11_STOP_JOINS_ALL 1', 'TP_NO_JOIN_ORDER_CHECK 1'],
+          replay=dict(src='c11_stop_concurrent.cpp', mode='stop', flags=['-pthread', '-g'], timeout=60)),
 ]
 RS_CTOR = r'^cocls::function<void \(\), 64ul>::function_base<cocls::thread_pool::resume<void>\('
 RS_SP = rx('void cocls::thread_pool::resume<void>(cocls::suspend_point<void>&)')
@@ -141,9 +149,9 @@ META = dict(
         'Closures are linear ghost ids; one arbitrary closure and one arbitrary worker-list index are tracked exactly (ghost-index idiom), totals are counted. '
         'Proved: enqueue pushes iff the exit flag is clear at the instant the lock is taken, wakes a worker, and leaves a rejected closure untouched with '
         'its owner; every closure a worker dequeues (under the lock) is invoked exactly once with the lock released and the thread-local current-pool '
-        'pointer is tested before the pool is touched again (the job may have stopped and destroyed it); a worker leaves only when it saw the exit flag '
+        'pointer is tested before the pool is touched again (the job may have stopped and destroyed it); closures are invoked only by a thread marked as worker of this pool; a worker leaves only when it saw the exit flag '
         'under the lock or its own job stopped the pool; stop() sets the flag, notifies all and swaps BOTH containers out inside one critical section, '
-        'destroys every swapped-out closure un-run exactly once outside the lock, joins every other worker exactly once and detaches exactly itself '
+        'destroys every swapped-out closure un-run exactly once outside the lock AND BEFORE THE FIRST JOIN (obligation C11-JOIN-ORDER), joins every other worker exactly once and detaches exactly itself '
         '(resetting the current-pool pointer) - for worker lists of 0..2^20 threads; ~thread_pool stops exactly once and finds nothing left; the '
         'constructor starts exactly `threads` (or hardware_concurrency()) workers bound to this pool. Lock discipline (queue / worker list only under the '
         'lock, exit flag written under the lock and never cleared, no closure invoked or destroyed and no join / detach while a mutex is held, no '
@@ -158,7 +166,14 @@ META = dict(
         'move-assign, call, destroy, empty call -> bad_function_call; every target destroyed exactly once, no leak. A lemma over the contracts '
         '(unbounded number of submit / serve / stop steps) concludes: never executed twice, never executed and cancelled, nothing left behind once stopped.'),
     level_note=(
-        'FAILS on the unchanged tree (as intended): KNOWN FINDING - resume(suspend_point) and run(async) (and through them co_await pool(awaitable)) wrap raw '
+        'FAILS on the unchanged tree: (1) DEFECT (audit D2) - stop() joins the workers before it destroys (= cancels) the swapped-out closures: a running job that waits for a queued '
+        'submission of the same pool is never released, stop() never returns; obligation C11-JOIN-ORDER in the join primitive (unit stop), native replay/c11_join_before_cancel.cpp, '
+        'patch specs/C11/fix_join_before_cancel.diff (unit verifies completely with it).  (2) OPEN FINDING (audit D1, marker C11-OPEN2-workers-taken-by-concurrent-stop, units dtor and '
+        'stop_concurrent) - stop() hands the whole worker list to the FIRST caller; a second stop() / ~thread_pool arriving while that caller (typically a job on a pool thread) is still '
+        'joining finds an empty list and returns while workers run; after the destructor they lock the mutex of the destroyed pool; native replay/c11_stop_concurrent.cpp (modes dtor, stop; '
+        'TSan heap-use-after-free with dtor_free).  No small repair: needs a live-worker hand-shake (count under the mutex + wait in stop()/~thread_pool with self-discount rules for pool threads).  '
+        'The clause is what discharges the assumption of unit worker "nobody but my own job destroys the pool while I may touch it".  '
+        '(3) KNOWN FINDING - resume(suspend_point) and run(async) (and through them co_await pool(awaitable)) wrap raw '
         'coroutine handles in plain closures; units resume_sp_stopped / run_async_stopped fail on the four obligations whose text starts with "C11-FINDING" '
         '(closure rejected by a stopped pool / queued closure destroyed un-run by stop() => coroutine neither resumed nor cancelled; the future of run(async) '
         'stays pending forever); native reproduction replay/c11_stopped_pool.cpp. NEW FINDING - worker() destroys the executed closure after re-locking the '
@@ -172,7 +187,7 @@ META = dict(
         'exit flag monotone) - that a joined worker actually returns, that notified workers wake, fairness of the mutex are assumed. Also not covered: '
         'ordering of execution (the queue is an abstract multiset; C11 claims none), resume<bool> / resume(&&) / run(async&&) (one-line forwarders of the '
         'covered functions; resume<bool> is executed inside run_async_stopped), enqueue_awaiter::await_ready/await_suspend/await_resume (forward to the '
-        'wrapped awaiter), jobs that throw out of run_detached (std::terminate by design), concurrent stop() with destruction from another thread (misuse), '
+        'wrapped awaiter), jobs that throw out of run_detached (std::terminate by design), '
         'a thread that called the public worker() by hand (it is not in the worker list: stop() / ~thread_pool do not wait for it, it re-locks the mutex of a possibly destroyed pool after its job - seen natively as a hang; its current-pool pointer is never restored), hardware_concurrency() == 0 (constructor then builds a pool '
         'without workers: submissions wait until stop() cancels them). Bounded: resume_sp_stopped drives the real closures for suspend points of 0..4 '
         'coroutines (its unbounded counterpart resume_sp_fwd has the closure abstract).'),
@@ -181,19 +196,19 @@ META = dict(
                '(closure level); assumed-contract primitives for std::queue / std::vector<std::thread> / std::thread / condition_variable / pthread mutex; '
                'lemma harness with loop contract over the contracts; native replays on real threads'),
     trusted_base=[
-        'assumed contracts on dependencies (lib/model_tpool.c): std::queue<function<void()>> as an abstract multiset of closure ids with a length (two objects: the pool member and the local of stop()); '
+        'assumed contracts on dependencies (lib/model_tpool2.c): std::queue<function<void()>> as an abstract multiset of closure ids with a length (two objects: the pool member and the local of stop()); '
         'std::vector<std::thread> by its representation pointers over a harness-allocated element array; std::thread::join / detach / get_id / constructor, pthread_self, hardware_concurrency; '
         'std::condition_variable wait (releases, lets others act, re-acquires; may wake spuriously) / notify (counted); iterator dereference re-anchored on the element array',
         'closure cell model of cocls::function<void()> at the pool level (move = the id travels, call = obligations + "the job may stop / destroy the pool", destructor = the closure dies); the real machinery is verified at the closure level',
-        'std::mutex via pthread primitives with lock-discipline obligations and rely / snapshot hooks (lib/model_mutex.c + tp_on_lock / tp_on_unlock in lib/model_tpool.c)',
+        'std::mutex via pthread primitives with lock-discipline obligations and rely / snapshot hooks (lib/model_mutex.c + tp_on_lock / tp_on_unlock in lib/model_tpool2.c)',
         'closure level: thread_pool::enqueue as accept / reject input, coro_queue::resume as recording primitive whose resumed coroutine evaluates await_resume() and frees its awaiter, '
         'promise<int> as one word with recorded outcome (value / exception / dropped), async<int>::start as "claims the promise, hands back the coroutine", observation hooks of the driver\'s callables (drivers/c11_pool.cpp)',
-        'rely of the pool mutex: exit flag only false -> true, and from then on queue and worker list are empty; otherwise arbitrary queue length; the tracked closure may be taken by another worker or submitted by another thread',
+        'rely of the pool mutex: exit flag only false -> true, and from then on queue and worker list are empty; otherwise arbitrary queue length; the tracked closure may be taken by another worker or submitted by another thread; the stop() of another thread leaves the workers it took in that thread\'s hands (ghost env_unjoined: they may still be running)',
     ],
     assumptions=[
         'rely/guarantee soundness: each function conforms to the rely for every behaviour of the others; that every interleaving of critical sections then satisfies the pool invariant is the standard argument (DESIGN 3.5), not machine-checked',
         'closure ids are unique (cocls::function is move-only: a closure is in exactly one place); ghost counters are mathematical (never wrap)',
-        'user jobs do not throw out of a plain closure (run(fn) catches; co_await / resume closures call noexcept paths); a job may stop and destroy the pool it runs on, nothing else destroys a pool while its workers run',
+        'user jobs do not throw out of a plain closure (run(fn) catches; co_await / resume closures call noexcept paths); a job may stop and destroy the pool it runs on; in unit worker nothing else destroys a pool while its workers run - the matching obligation on ~thread_pool (no worker left that can touch the pool) is the OPEN finding C11-OPEN2',
         'the worker list holds joinable threads while the pool runs (established by the constructor unit, preserved because only stop() touches the list)',
         'liveness is out of reach: join() returns, notified waiters wake, the mutex is fair - assumed, not proved',
         'closure-level scenarios: one submission per scenario (resume(suspend_point): up to 4); what the pool does with an accepted closure is exactly one of run / destroy-un-run, exactly once (proved at the pool level by units worker and stop)',
